@@ -165,7 +165,10 @@ W_FixedShape == ~H.fixed \/ (NObs = H.LMax + 1 /\ \A k \in LevelsObs : E.Nl[k + 
 
 ChecksC06 == << <<"LevelBound", W_LevelBound>>, <<"ExitOnCriteria", W_ExitOnCriteria>>,
                <<"AllocationMet", W_AllocationMet>>, <<"FixedShape", W_FixedShape>> >>
+\* every level of the returned result was simulated (a level without samples has no mean, variance or cost)
+V_NoEmptyLevel == Len(E.empty) = 0
 Checks == IF ~V_Numeric THEN << <<"Numeric", FALSE>> >> ELSE
+          IF ~V_NoEmptyLevel THEN << <<"NoEmptyLevel", FALSE>> >> \o ChecksC06 ELSE
           IF ~H.ids THEN << <<"NlExact", V_NlExact>> >> \o ChecksC06 ELSE
           << <<"NlExact", V_NlExact>>, <<"SamplesGenuine", V_SamplesGenuine>>, <<"RowsExact", V_RowsExact>>,
              <<"StatsExact", V_StatsExact>>, <<"StatsWithControls", V_StatsWithControls>>,
